@@ -58,6 +58,27 @@ impl Scenario for C08 {
             life.gen.broker.s2c_lat_max_ns = life.gen.broker.s2c_lat_max_ns.min(100_000);
             life.gen.broker.s2c_lat_min_ns = life.gen.broker.s2c_lat_min_ns.min(life.gen.broker.s2c_lat_max_ns);
         }
+        // directed (one server-close session in four that has a consumer): the server cancels a consumer
+        // (nowait = false) and closes the connection as its reaction to the method frame of a 20-frame publish on
+        // that consumer's channel: the client's CancelOk is held back behind the publish in progress when the
+        // Connection.Close arrives - whatever becomes of it, Connection.CloseOk is the last frame written
+        let mut cancel_then_close = 0u64;
+        if both_at.is_none() && cs.choose("c08_cancel_then_close", 4) == 0 {
+            if let ConnEnd::ServerClose { code, text: ctext } = life.conn_end.clone() {
+                if let Some(c) = life.consumers.iter().find(|c| matches!(c.end, ConsumerEnd::Inherit)).cloned() {
+                    if let Some(ci) = life.chans.iter().find(|x| x.id == c.ch).map(|x| (x.thread, x.slot)) {
+                        let (thread, slot) = ci;
+                        let plan = &mut life.gen.plan.threads[thread - 1];
+                        let pos = plan.ops.iter().position(|(_, o)| !matches!(o, Op::Consume { .. })).unwrap_or(plan.ops.len());
+                        let prior = plan.ops[..pos].iter().filter(|(s2, o)| *s2 == slot && matches!(o, Op::Publish { .. })).count() as u32;
+                        plan.ops.insert(pos, (slot, Op::Publish { exchange: "x.long".into(), rk: "rk.long".into(), mandatory: false, immediate: false, props: 0, body_len: 20 * (life.gen.frame_max - 8), via_exchange: false }));
+                        life.gen.broker.script.retain(|(_, a)| !matches!(a, crate::broker::Action::CloseConnection { .. }));
+                        life.gen.broker.script.push((crate::broker::Trigger::OnPublishMethod { ch: c.ch, nth: prior }, crate::broker::Action::CancelThenCloseConnection { ch: c.ch, nth_consumer: c.nth_on_channel, nowait: false, code, text: ctext }));
+                        cancel_then_close = 1;
+                    }
+                }
+            }
+        }
         let (res, world) = run_generated(&life.gen, cs, text, move |_| {
             if let Some(at) = both_at {
                 crate::world::call_in(at.saturating_sub(200_000), move |_| amiquip_simrt::stall_thread_named("amiquip-io", at + 300_000));
@@ -66,6 +87,7 @@ impl Scenario for C08 {
         let mut rep = CaseReport::default();
         fill_common(&mut rep, &res, &world);
         rep.count("c08.both_sides_close_sessions", both_at.is_some() as u64);
+        rep.count("c08.cancel_then_connection_close_during_publish", cancel_then_close);
         rep.sample = serde_json::json!({"plan": plan_summary(&life.gen), "conn_end": format!("{:?}", life.conn_end), "closeok_mode": format!("{:?}", life.gen.broker.closeok_mode), "consumers": life.consumers.iter().map(|c| format!("{:?}", c)).collect::<Vec<_>>()});
         for p in &res.run.panics {
             rep.violate("panic", format!("{}@{}", p.thread, p.location), format!("{} panicked: {}", p.thread, p.message));
